@@ -35,7 +35,8 @@ TRUSTED_BASE = BASE_TRUSTED + [
     'modelled, not verified: catalogue glasses (the model carries one index per material object; histories use ideal media, the implementation oracle does not depend on the medium type); polynomial / Chebyshev coefficient tables are not edited by these calls',
     'the launch of the marginal ray (Model/Paraxial.v, corresponds per C04) is taken as unchanged by a solve in the solve theorems (true for an infinite object with an EPD aperture and a solve behind surface 1)',
 ]
-RULE = ('histories: object (infinite 60% / finite), 1-12 surfaces appended in index order (plane / sphere / conic / even asphere, '
+RULE = ('every numeric argument (radius, conic, thickness, index, coefficients, variable / pickup / solve values; at construction and in edits) is passed in a randomly drawn TYPE: Python float / int, numpy float64 / int64, 0-d arrays, coefficient lists of floats / ints / mixed / numpy floats, tuples, 1-D and 2-D numpy arrays of float and int dtype (integer types after rounding the value or with the placeholder 0), read-back compared as exact values (coefficients: relative 1e-12); polynomial and Chebyshev surfaces take part in radius edits / pickups incl. set_radius(inf), their coefficient tables, norms and class are frame-checked; '
+        'histories: object (infinite 60% / finite), 1-12 surfaces appended in index order (plane / sphere / conic / even asphere, '
         'ideal media, mirrors 12%, tilts+decentres 30%, 0-2 is_stop flags, wavelengths interleaved with random primaries), then 0-30 edits '
         'drawn from set_radius / set_conic / set_thickness / set_index / set_asphere_coeff / Variable.update (7 kinds, scaled or not) / '
         'pickups.add (acyclic, one per target) / solves.add / update / image_solve / add_wavelength / remove_surface / insertion / invalid calls; '
@@ -319,7 +320,8 @@ def _histories(ctx, n, salt=0, **kw):
 
 def _witness(h, v):
     w = dict(v)
-    w['history'] = {'ap': h['ap'], 'ops': h['ops'][:v['op_index'] + 1]}
+    w['history'] = {'ap': h['ap'], 'ops': h['ops'][:v['op_index'] + 1],
+                    'types': {k: t for k, t in (h.get('types') or {}).items() if int(k) <= v['op_index']}}
     w['violates_property'] = True
     return w
 
@@ -355,7 +357,7 @@ def system_checks(ctx):
     for hi, st in fails[:5]:
         h = hists[hi]
         # a disagreement between the model and optiland: is the property itself violated on optiland there?
-        sub = {'ap': h['ap'], 'ops': h['ops'][:max(st, 0) + 1], 'nbuild': h.get('nbuild', 0)}
+        sub = {'ap': h['ap'], 'ops': h['ops'][:max(st, 0) + 1], 'nbuild': h.get('nbuild', 0), 'types': h.get('types') or {}}
         v = c01lib.check_history(sub)
         d = {'history': sub, 'step': st, 'op': h['ops'][st] if st >= 0 else None,
              'implementation': (impls[hi][st][0] if st >= 0 else None), 'violates_property': bool(v)}
@@ -371,7 +373,7 @@ def system_checks(ctx):
             'histogram': {}}
     clauses = {}
     extra = _histories(ctx, ctx.n(50, 800), salt=5, focus='solve') + _histories(ctx, ctx.n(50, 800), salt=6, focus='pickup') \
-        + _histories(ctx, ctx.n(30, 600), salt=7, focus='index')
+        + _histories(ctx, ctx.n(30, 600), salt=7, focus='index') + _histories(ctx, ctx.n(70, 900), salt=8, focus='asphere')
     seen_ids = set()
     for h in hists + extra:
         res2['n'] += len(h['ops'])
@@ -386,7 +388,8 @@ def system_checks(ctx):
         if fid is None or fid not in seen_ids:
             seen_ids.add(fid)
             res2['disagreements'].append(w)
-    res2['histogram'] = {'histories': len(hists) + len(extra), 'violated_clause_counts': clauses}
+    res2['histogram'] = {'histories': len(hists) + len(extra), 'violated_clause_counts': clauses,
+                         'argument_type_classes': c01lib.type_histogram(hists + extra)}
     yield res2
 
 
@@ -396,7 +399,7 @@ def search(ctx, broken, disagreements):
     found = []
     known = set()
     for salt, kw in ((11, {}), (12, {'focus': 'thickness'}), (13, {'focus': 'solve'}), (14, {'focus': 'pickup'}),
-                     (15, {'focus': 'index'}), (16, {'build_only': True})):
+                     (15, {'focus': 'index'}), (17, {'focus': 'asphere'}), (16, {'build_only': True})):
         for h in _histories(ctx, ctx.n(120, 1500), salt=salt, **kw):
             v = c01lib.check_history(h)
             if v:
@@ -437,6 +440,8 @@ def _finding_of(w):
         return 'image-solve-slope' if w.get('same_medium') is False else None
     if c == 'pickup-unsatisfied':
         return 'update-order' if (w.get('stage') == 'update' and w.get('dependency')) else None
+    if c == 'edit-readback' and (w.get('key') or [None])[0] == 'c' and str(w.get('coef_container') or '').startswith('ndarray:int'):
+        return 'asphere-coeff-int-array'      # (a LIST of ints takes the value: that case is not this finding)
     if c in ('edit-readback', 'edit-frame', 'edit-first-surface-moved'):
         key = w.get('key') or []
         if key and key[0] == 't' and key[1] == 0 and w.get('object_infinite') and _is_thickness_edit(op) or \
@@ -449,6 +454,9 @@ def _finding_of(w):
     if c == 'pickup-unsatisfied' and False:
         return None
     if c == 'raises':
+        if op and (op[0] == 'set_coeff' or (op[0] == 'var' and op[1] == 'asphere_coeff')) and w.get('error') == 'TypeError' \
+                and str(w.get('coef_container') or '').startswith('tuple'):
+            return 'asphere-coeff-tuple'
         if op and op[0] == 'pickup' and op[2] == 'conic' and w.get('error') == 'AttributeError' \
                 and (w.get('geom_before') or [None] * (op[1] + 1))[op[1]] == 'Plane' \
                 and not (w.get('hask_before') or [True] * (op[1] + 1))[op[1]]:
@@ -494,6 +502,20 @@ REPLAYS = {
     'set-radius-plane-drops-conic': {'ap': ['EPD', 10.0], 'nbuild': 7,
                                      'ops': _BASE + [['set_conic', -1.0, 4], ['set_radius', 60.0, 4]]},
     'conic-pickup-plane-source': {'ap': ['EPD', 10.0], 'nbuild': 7, 'ops': _BASE + [['pickup', 4, 'conic', 1, 1.0, 0.0]]},
+    'asphere-coeff-int-array': {'ap': ['EPD', 10.0], 'nbuild': 5, 'types': {'2': {'c': 'arr_i'}}, 'ops': [
+        ['add', 0, 'standard', INF, 0.0, [], INF, 'air', False, 0.0, 0.0, 0.0, 0.0],
+        ['wavelength', 0.55, True],
+        ['add', 1, 'even_asphere', 40.0, -0.5, [0.0, 0.0, 0.0], 6.0, ['ideal', 1.5], True, 0.0, 0.0, 0.0, 0.0],
+        ['add', 2, 'standard', -60.0, 0.0, [], 50.0, 'air', False, 0.0, 0.0, 0.0, 0.0],
+        ['add', 3, 'standard', INF, 0.0, [], 0.0, 'air', False, 0.0, 0.0, 0.0, 0.0],
+        ['set_coeff', -2.5e-4, 1, 0]]},
+    'asphere-coeff-tuple': {'ap': ['EPD', 10.0], 'nbuild': 5, 'types': {'2': {'c': 'tuple_f'}}, 'ops': [
+        ['add', 0, 'standard', INF, 0.0, [], INF, 'air', False, 0.0, 0.0, 0.0, 0.0],
+        ['wavelength', 0.55, True],
+        ['add', 1, 'even_asphere', 40.0, -0.5, [1e-5, 0.0, 0.0], 6.0, ['ideal', 1.5], True, 0.0, 0.0, 0.0, 0.0],
+        ['add', 2, 'standard', -60.0, 0.0, [], 50.0, 'air', False, 0.0, 0.0, 0.0, 0.0],
+        ['add', 3, 'standard', INF, 0.0, [], 0.0, 'air', False, 0.0, 0.0, 0.0, 0.0],
+        ['set_coeff', -2.5e-4, 1, 0]]},
     'set-index-mirror-media': {'ap': ['EPD', 5.0], 'nbuild': 6, 'ops': _MIRROR + [['set_index', 1.41, 1]]},
     'solve-changes-launch': {'ap': ['imageFNO', 5.0], 'nbuild': 8, 'ops': [
         ['add', 0, 'standard', INF, 0.0, [], INF, 'air', False, 0.0, 0.0, 0.0, 0.0],
